@@ -453,6 +453,8 @@ def _const_rows(e, consts) -> Optional[list]:
     for x in e.elts:
         if isinstance(x, ast.Constant):
             rows.append(x)
+        elif isinstance(x, ast.Name) and not (isinstance(e, ast.Name)):
+            rows.append(x)         # `for b in (first, second):` over plain variables (not rebound in the body: checked by the caller)
         elif isinstance(x, (ast.Tuple, ast.List)) and x.elts and all(isinstance(y, (ast.Constant, ast.Name)) for y in x.elts):
             rows.append(x)         # plain names are fine as long as the loop body does not rebind them (checked by the caller)
         else:
@@ -476,7 +478,7 @@ def _n11(body: List[ast.stmt], consts, stats) -> List[ast.stmt]:
                 if reads == 1:
                     rows = _const_rows(out[-1].value, consts)
                     # a local table of pure constants is data (rules read it as a table); one that lists variables is a loop written sideways
-                    if rows is not None and not any(isinstance(y, ast.Name) for r in rows if not isinstance(r, ast.Constant) for y in r.elts):
+                    if rows is not None and not any(isinstance(r, ast.Name) or (isinstance(r, (ast.Tuple, ast.List)) and any(isinstance(y, ast.Name) for y in r.elts)) for r in rows):
                         rows = None
                     local_table = out[-1] if rows is not None else None
             tg = st.target
@@ -493,15 +495,15 @@ def _n11(body: List[ast.stmt], consts, stats) -> List[ast.stmt]:
                     stack.extend(ast.iter_child_nodes(x))
                 stored = any(isinstance(n, ast.Name) and n.id in names and isinstance(n.ctx, ast.Store) for b in st.body for n in ast.walk(b))
                 later = any(isinstance(n, ast.Name) and n.id in names for s2 in body[i + 1:] for n in ast.walk(s2))
-                shapes_ok = all((isinstance(r, ast.Constant) and len(names) == 1) or (not isinstance(r, ast.Constant) and len(r.elts) == len(names)) for r in rows)
+                shapes_ok = all((isinstance(r, (ast.Constant, ast.Name)) and len(names) == 1) or (not isinstance(r, (ast.Constant, ast.Name)) and len(r.elts) == len(names)) for r in rows)
                 # names standing in the table keep their value through the loop
-                row_names = {y.id for r in rows if not isinstance(r, ast.Constant) for y in r.elts if isinstance(y, ast.Name)}
+                row_names = {y.id for r in rows if isinstance(r, (ast.Tuple, ast.List)) for y in r.elts if isinstance(y, ast.Name)} | {r.id for r in rows if isinstance(r, ast.Name)}
                 rebinds = any(isinstance(n, ast.Name) and n.id in row_names and isinstance(n.ctx, (ast.Store, ast.Del)) for b in st.body for n in ast.walk(b)) or bool(row_names & set(names))
                 if not jumps and not stored and not later and shapes_ok and not rebinds:
                     if local_table is not None:
                         out.pop()
                     for r in rows:
-                        vals = {names[0]: r} if isinstance(r, ast.Constant) else dict(zip(names, r.elts))
+                        vals = {names[0]: r} if isinstance(r, (ast.Constant, ast.Name)) else dict(zip(names, r.elts))
 
                         class S(ast.NodeTransformer):
                             def visit_Name(self, node):
@@ -515,6 +517,50 @@ def _n11(body: List[ast.stmt], consts, stats) -> List[ast.stmt]:
         if not done:
             out.append(st)
     return out
+
+
+class _FormatToFString(ast.NodeTransformer):
+    """N16: '<literal with {} / {0} fields>'.format(a, b)  ->  f'…{a}…{b}…'   (positional fields only, no conversions or format specs, every
+    argument used exactly once and in order - so evaluation order and text are the same).  Rules read interpolation as f-strings."""
+
+    def __init__(self, stats):
+        self.stats = stats
+
+    def visit_Call(self, node):
+        self.generic_visit(node)
+        f = node.func
+        if not (isinstance(f, ast.Attribute) and f.attr == 'format' and isinstance(f.value, ast.Constant) and isinstance(f.value.value, str) and not node.keywords
+                and node.args and not any(isinstance(a, ast.Starred) for a in node.args)):
+            return node
+        import string
+        try:
+            parts = list(string.Formatter().parse(f.value.value))
+        except ValueError:
+            return node
+        values, used = [], []
+        auto = 0
+        for lit, field, spec, conv in parts:
+            if lit:
+                values.append(ast.Constant(value=lit))
+            if field is None:
+                continue
+            if spec or conv:
+                return node
+            if field == '':
+                idx = auto
+                auto += 1
+            elif field.isdigit():
+                idx = int(field)
+            else:
+                return node
+            if idx >= len(node.args):
+                return node
+            used.append(idx)
+            values.append(ast.FormattedValue(value=node.args[idx], conversion=-1, format_spec=None))
+        if used != list(range(len(node.args))):
+            return node
+        self.stats['N16'] = self.stats.get('N16', 0) + 1
+        return ast.fix_missing_locations(ast.copy_location(ast.JoinedStr(values=values), node))
 
 
 class _AttrLiterals(ast.NodeTransformer):
@@ -729,6 +775,7 @@ def normalise(tree: ast.AST, ref: dict = None) -> Dict[str, int]:
             body = [_n4(x, stats) for x in body]
             body = _n11(body, consts, stats)
             body = [_AttrLiterals(stats).visit(x) if not isinstance(x, (ast.FunctionDef, ast.AsyncFunctionDef, ast.ClassDef)) else x for x in body]
+            body = [_FormatToFString(stats).visit(x) if not isinstance(x, (ast.FunctionDef, ast.AsyncFunctionDef, ast.ClassDef)) else x for x in body]
             body = _n5(body, stats)
             body = _n10(body, stats)
             body = _n14(body, stats)
